@@ -24,7 +24,9 @@ RULE = ("Hypothesis-generated sequences of read operations only (item access, ge
         "BYSTANDER object on a second file that is mutated (and, for buffered classes, capacity changes "
         "that force flushes) while the watched object is only read, and an outside writer that "
         "re-stores the watched file with the same data in another textual form (key order, "
-        "whitespace). Non-trivial = >=3 reads "
+        "whitespace); the outside writer may also DELETE the watched file after it was read, and the "
+        "flush of the modified bystander may fail with an injected I/O error, after which a buffered "
+        "session that only reads must write nothing to any file. Non-trivial = >=3 reads "
         "incl. one on a nested child, or a context entry+exit around reads, or a missing resource; "
         "distinct by (class, op kinds, context shape, resource state).")
 ASSUMPTIONS = [
